@@ -155,6 +155,30 @@ def exhaustive_cases(tier):
                         yield "exhaustive-limits", stream_case(b, 1, mp, mm, bytewise, parts)
 
 
+def padded_cases(tier, rng):
+    """RFC 2046 allows transport padding (blanks, tabs) after a delimiter: a chunk edge anywhere inside such a line
+    must not change the parts, nor the limits' verdict"""
+    b = b"Bnd"
+    forms = [[[0, "a", "", [], b"v1"], [0, "b", "", [], b"second"]],
+             [[0, "a", "", [], b"x\r"], [1, "f", "n.bin", [], b"\r\n--Bn"], [0, "c", "", [], b""]]]
+    pads = [b"   ", b" \t \t", b"\t" * 7, b" " * 12] if tier == "quick" else [b" ", b"  ", b"   ", b" \t \t", b"\t" * 7, b" " * 12, b" \x0b\x0c "]
+    for parts in forms:
+        plain, _ = c01.encode_form(b, parts, "utf-8")
+        n, total = len(parts), field_total(parts)
+        for pad in pads:
+            body = plain.replace(b"--" + b + b"\r\n", b"--" + b + pad + b"\r\n").replace(b"--" + b + b"--\r\n", b"--" + b + b"--" + pad + b"\r\n")
+            cuts = [i for i in range(len(body) + 1)]
+            for i in cuts:
+                # (limits that are not exceeded: the oracle times a 413 by the positions of the unpadded encoding)
+                mp, mm = (n, [total]) if i % 2 == 0 else (324, [])
+                yield "padded-delimiters", stream_case(b, 1, mp, mm, [body[:i], body[i:]], parts)
+            yield "padded-delimiters", ["form", b, 1, max(0, n - 1), [], [body], parts]
+            yield "padded-delimiters", ["form", b, 1, 324, [max(0, total - 1)], [body], parts]
+            for size in (1, 2, 3, 5):
+                yield "padded-delimiters", stream_case(b, 1, n, [total], chunks_of(body, size), parts)
+                yield "padded-delimiters", ["form", b, 1, n, [total], chunks_of(body, size), parts]
+
+
 def random_cases(tier, rng):
     n_forms = 250 if tier == "quick" else 4000
     for _ in range(n_forms):
@@ -253,6 +277,7 @@ def cases(tier, rng):
     yield from random_cases(tier, rng)
     yield from many_parts_cases(tier, rng)
     yield from adversarial_cases(tier, rng)
+    yield from padded_cases(tier, rng)
 
 
 def search_cases(tier, rng, mism):
@@ -476,7 +501,8 @@ def oracle(case, obs):
         pre, epi, first_crlf = meta[1], meta[2], bool(meta[3])
         body, spans = layout(b, parts, "utf-8" if u else "latin-1", pre, epi, first_crlf)
         sizes = [sum(piece_len(x) for x in c) for c in case[5]]
-        bound = len(b) + 5 + longest_hws_run(body)
+        actual = b"".join(expand(c) for c in case[5])      # (differs from `body` only by transport padding)
+        bound = len(b) + 5 + max(longest_hws_run(body), longest_hws_run(actual))
         biggest = max(sizes) if sizes else 0
         # 1. the decoder driven directly: the hold-back in DATA state (the worst chunk is reported)
         held = [(blen, k) for k, (evs, blen, st) in enumerate(obs[0]) if st == "DATA"]
